@@ -224,9 +224,13 @@ Definition judge_rule (case obs : sx) : sx :=
               match fixed_ok, (x <- fld "bin_width" case ;; d_q x), (x <- fld "want_shift" case ;; d_opt d_q x) with
               | Some (w, sh, g), Some bw, Some ws =>
                   g && Qceqb w bw && match ws with Some s => Qceqb sh s | None => true end &&
-                  (* align=False: the grid starts at the smallest value itself *)
+                  (* align=False: the grid passes through the smallest value itself: that value is the first edge, or - when the
+                     rounding of value - k*w + k*w lands an ulp above the value - the edge between the first and the second bin
+                     (physt then prepends the bin that covers the value) *)
                   match fld "align" case, range with
-                  | Some (SS "F"), None => near (first_edge l) lo (Qcmax (Qcabs lo) w)
+                  | Some (SS "F"), None =>
+                      near (first_edge l) lo (Qcmax (Qcabs lo) w) ||
+                      (Nat.leb 2 (length l) && near (first_edge l + w) lo (Qcmax (Qcabs lo) w))
                   | _, _ => true end
               | _, _, _ => false end
             else if String.eqb meth "fixed_min" then
